@@ -25,7 +25,7 @@ EXPLANATION = (
     "helper class imported from another rule module is itself free of class-level state; R12f (=R14a) the life-cycle "
     "order holds whichever rules are enabled; R12g the pragma tables shared by all rules are written only when a file "
     "starts and when its pragmas are compiled, never while failures are reported. "
-    "Not decided: value-level interference through objects reachable from tokens that are shared by reference."
+    "R12i (=R14k) a scan tokenizes whatever the enabled rules implement; R12j no rule reads the plugin manager (the set of enabled rules) through its context. Not decided: value-level interference through objects reachable from tokens that are shared by reference."
 )
 ASSUMPTIONS = ["rule code reaches tokens only through the callback arguments and its own fields (no global token registry exists: R12a)"]
 
